@@ -99,6 +99,24 @@ def run_all(tier, seed):
                         lines.append(f"scalar {lo} {hi} {int(v)}")
                         expect.append(f"val {int(v)}")
                         ctxs.append(dict(c0, kernel=f"echo_{name}", v=v))
+                if dt.kind == "f":
+                    # subnormal values of the declared C type are representable values: they go in and come back bit for bit.  Values and
+                    # expectations are built from BIT PATTERNS (no floating-point operation of this process takes part in the comparison:
+                    # a build that switches the process to flush-to-zero would otherwise hide its own effect)
+                    import struct
+                    subs = [(-149, 1), (-140, 1 << 9), (-127, 1 << 22)] if code == "f4" else [(-1074, 1), (-1060, 1 << 14), (-1023, 1 << 51)]
+                    for e2, own_bits in subs:
+                        dbits = ((e2 + 1023) << 52) if code == "f4" else own_bits        # the value as a C double / its own pattern
+                        v = struct.unpack("<d", struct.pack("<Q", dbits))[0]
+                        try:
+                            got = getattr(K, f"echo_{name}")(v=v)
+                            evals += 1
+                            tags["scalar.subnormal." + name] += 1
+                            gbits = struct.unpack("<Q", struct.pack("<d", float(got)))[0]
+                            if gbits != dbits:
+                                fail("scalar-value", f"{cname}: echo_{name}(2**{e2}, a subnormal {cty}) returned the bit pattern {gbits:#018x}, expected {dbits:#018x}", dict(c0, kernel=f"echo_{name}", v=f"2**{e2}"))
+                        except Exception as ex:
+                            fail("scalar-raises", f"{cname}: echo_{name}(2**{e2}): {type(ex).__name__} {str(ex)[:100]}", dict(c0, v=f"2**{e2}"))
                 if lo is not None:
                     for bad in (hi + 1, lo - 1):
                         try:
